@@ -39,6 +39,14 @@ def do_replay(prop, path):
         print("this property module has no replay support")
         return 2
     for e in entries:
+        if e.get("clause") == "does-not-return":
+            import impl
+            g = e["input"]["game"]
+            g["transition_list"] = [[tuple(t) for t in row] if isinstance(row, list) else row for row in g["transition_list"]]
+            o = impl.solve(g, bool(e["input"].get("prune")), limit=max(60.0, 3 * float(e["input"].get("limit_s", 10))), want_nodes=False)
+            if o["outcome"] == "Timeout":
+                ctx.violations.append({"clause": "does-not-return", "input": e["input"], "detail": {"outcome": "Timeout"}})
+            continue
         mod.replay(ctx, e)
     if ctx.violations:
         for v in ctx.violations:
@@ -129,8 +137,20 @@ def main():
         suites = sorted({d["suite"] for d in ctx.disagreements})
         broken.append({"kind": "correspondence", "suites": suites})
 
+    if ctx.extra.get("stopped_on_time_limits") and not ctx.violations and crlib.TIMED_OUT_INPUTS:
+        first = crlib.TIMED_OUT_INPUTS[0]
+        ctx.violations.append({"clause": "does-not-return", "input": first,
+                               "detail": {"bounds_fired": crlib.TIMEOUTS["n"], "seconds": crlib.TIMEOUTS["seconds"],
+                                          "note": "the solver did not return within the bound on this input and on "
+                                                  "many others; the model returns at once"},
+                               "signature": None})
+    if ctx.extra.get("stopped_on_time_limits") and not ctx.violations:
+        broken.append({"kind": "time-limits", "fired": dict(crlib.TIMEOUTS),
+                       "note": "the implementation ran into the wall-clock bound of case after case (the model "
+                               "returns at once on the same inputs); exploration stopped"})
+
     # 4. failing-input search when a proof obligation or the correspondence broke ---------
-    if broken and not ctx.violations:
+    if broken and not ctx.violations and not ctx.extra.get("stopped_on_time_limits"):
         budget = 120 if args.tier == "quick" else 900
         t_end = time.time() + budget
         k = 0
@@ -171,6 +191,8 @@ def main():
                            "the oracle found no input on which the property itself fails"}
         path = write_replay(ctx, payload, "unshown")
         d = ctx.disagreements[0] if ctx.disagreements else None
+        if ctx.extra.get("stopped_on_time_limits"):
+            print(f"implementation stopped returning: {crlib.TIMEOUTS['n']} wall-clock bounds fired ({crlib.TIMEOUTS['seconds']:.0f} s in total)")
         if d:
             print(f"first disagreement: suite={d['suite']} diff={json.dumps(d['impl'].get('diff'))[:300]}")
         print(f"VIOLATION property={prop} replay={path} no-failing-input-found")
